@@ -29,6 +29,30 @@ type Batch struct {
 	batches []nodeBatch
 	index   []int
 	err     error
+	routed  slotRoutes
+}
+
+// slotRoutes remembers the node each slot of a batch was routed to.
+// The slot table can be refreshed between two Put calls, and the node batches
+// of a batch are executed concurrently: two commands on the same key that went
+// to different nodes could take effect in either order. Commands of one batch
+// that hash to the same slot therefore follow the first one; a node that no
+// longer owns the slot redirects them one by one, in order.
+type slotRoutes map[uint16]*redisNode
+
+func (sr *slotRoutes) route(node *redisNode, keys []string) *redisNode {
+	if node == nil || len(keys) == 0 {
+		return node
+	}
+	if *sr == nil {
+		*sr = make(slotRoutes)
+	}
+	slot := hash(keys[0])
+	if first, ok := (*sr)[slot]; ok {
+		return first
+	}
+	(*sr)[slot] = node
+	return node
 }
 
 type nodeBatch struct {
@@ -81,11 +105,12 @@ func (batch *Batch) Put(cmd string, args ...interface{}) error {
 		return nil
 	}
 
-	node, err := batch.cluster.ChooseNodeWithCmd(cmd, args...)
+	node, keys, err := batch.cluster.chooseNodeWithCmdAndKeys(cmd, false, args...)
 	if err != nil {
 		err = fmt.Errorf("run ChooseNodeWithCmd error : %w", err)
 		return batch.joinError(err)
 	}
+	node = batch.routed.route(node, keys)
 	if node == nil {
 		// node is nil means no need to put
 		return nil
